@@ -740,7 +740,9 @@ def run(ctx):
     bhits, b_eval = search_beta(ctx, rng, (150 if ctx.quick else 1500) * (3 if broken else 1))
     uhits, u_eval, u_dist = search_reuse(ctx, rng, (200 if ctx.quick else 2000) * (3 if broken else 1))
     mhits, m_eval, m_dist, m_radii = search_remap(ctx, rng, (400 if ctx.quick else 4000) * (3 if broken else 1))
-    hits += uhits + mhits
+    dfails, d_eval, d_dist = L.dtype_search(rng, (300 if ctx.quick else 3000) * (3 if broken else 1), 'distributions', 'C14')
+    dhits = [Hit('dtype-independence', k_, 'Distributions(...).image().cos(): ' + w_, sn_, da_) for (k_, w_, sn_, da_) in dfails]
+    hits += uhits + mhits + dhits
     seen_exc = set()
     for c, out in exc:
         h = exc_hit(c, out)
@@ -748,8 +750,8 @@ def run(ctx):
             seen_exc.add(h.key)
             hits.append(h)
     hits += bhits
-    ctx.cov.update(evaluations=n_eval + b_eval + u_eval + m_eval + g_n + v_n,
-                   distinct_nontrivial=n_distinct + u_dist + m_dist,
+    ctx.cov.update(evaluations=n_eval + b_eval + u_eval + m_eval + d_eval + g_n + v_n,
+                   distinct_nontrivial=n_distinct + u_dist + m_dist + d_dist,
                    radii_checked=n_radii, remap_radii_checked=m_radii, object_reuse_sequences=u_eval,
                    rule='search: exact-model images (random shape 3..33, origin tuple incl. negative / edge / corner / '
                         'location string, rmax keyword or integer, order 0..8, odd on/off, nearest/linear, use_sin '
@@ -761,7 +763,10 @@ def run(ctx):
                         'different or equal shapes (nearest/linear/remap) must agree with a fresh object per image; remap: '
                         'exact-model images (20..69 squared, corner/edge/centre/inside origins, all rmax keywords and integers, '
                         'order 0..4, odd on/off, weights None/ones/smooth, sin on/off) recovered to the calibrated interpolation '
-                        'tolerances 1e-9 / 0.08 / 0.15 / 0.35 at radii >= 5 with cond <= 1000 and coverage >= 1/4',
+                        'tolerances 1e-9 / 0.08 / 0.15 / 0.35 at radii >= 5 with cond <= 1000 and coverage >= 1/4; dtype independence: images '
+                        'and weights of dtype uint8/int8/uint16/int16/int32/uint32/int64/float32 with values up to the type extremes must '
+                        'give the result of their float64 copies (bit for bit whenever all conversions are exact, float32 products to 1e-4 '
+                        'at radii with cond <= 1e3), all methods, folding and non-folding origins',
                    samples=samples, exhaustive=False)
     new, seen = 0, set()
     for h in hits:
